@@ -551,6 +551,32 @@ class World:
             if r.bufstate is not None:
                 r.bufstate["changed_after"] = True
             return
+        elif ed[0] == "wrongroot":
+            # the document is replaced by one of the OTHER root kind (a dict file now holds a list ...): what reads do in that
+            # state is not defined by any property (the test suite pins ValueError); only READS are executed meanwhile and
+            # their outcome is ignored.  The interesting part is AFTERWARDS: once a proper document is back ("restore"), every
+            # read must reflect it again - a failed load must not leave the object unable to load
+            if r.bufstate is not None or getattr(r, "wrongroot", False) or r.disk is None:
+                raise Skip()
+            self.outside_write_raw(r, [5] if r.kind == "dict" else {"wrong": 5})
+            r.wrongroot = True
+            for h in self.handles:
+                if h is not None and h.path and self.objs[h.oid].rid == r.rid:
+                    h.state = "dropped"
+            self.stat("outside_write")
+            self.probe("outside_wrong_root_kind")
+            return
+        elif ed[0] == "restore":
+            if not getattr(r, "wrongroot", False):
+                raise Skip()
+            new = deep(ed[1])
+            if kind_of(new) != r.kind:
+                raise Skip()
+            self.outside_write_raw(r, new)
+            r.wrongroot = False
+            r.model, r.disk, r.exists = deep(new), deep(new), True
+            self.stat("outside_write")
+            return
         elif ed[0] == "delete":
             # the resource is removed outright by an outside party (C17 only: reads afterwards must not re-create it; what
             # they return is not defined by any property and is not compared)
@@ -633,6 +659,12 @@ class World:
             raise Skip()
         if getattr(r, "uncertain", False):
             raise Skip()       # after an I/O error inside a buffered operation the resource is left alone until the contexts exit
+        if getattr(r, "wrongroot", False):
+            if mut or h.path:
+                raise Skip()
+            self.lib_op(h.node, name, M.dec(st.get("args", []), None), attr)   # outcome ignored (see st_outside 'wrongroot')
+            self.stat("ops")
+            return
         handle_nodes = [x.node if x is not None else None for x in self.handles]
         args = M.dec(st.get("args", []), handle_nodes)
         margs = M.dec(st.get("args", []), _ModelOperands(self))
@@ -886,7 +918,7 @@ class World:
         for r in self.res:
             obs = self.observe(r)
             exp = ABSENT if r.disk is None else r.disk
-            if getattr(r, "corrupt", False) or getattr(r, "uncertain", False):
+            if getattr(r, "corrupt", False) or getattr(r, "uncertain", False) or getattr(r, "wrongroot", False):
                 continue
             if r.frozen is None and self.cfg.get("forced_flush_possible") and r.bufstate is not None:
                 # a capacity-forced flush may have written the logical content
